@@ -207,8 +207,12 @@ func c17Run(c *caseCtx) (res caseResult) {
 		senders := make([]*actor.PID, nS)
 		for s := 0; s < nS; s++ {
 			s := s
-			if s%3 != 0 {
+			if s%3 == 1 {
 				senders[s] = actor.NewPID(a1, fmt.Sprintf("sender/%d", s))
+			} else if s%3 == 2 {
+				// a forwarded sender: an actor of a third node that carries the very id of sender s-1 (a gateway
+				// relaying for clients that name their actors alike); it is never answered, so nobody dials it
+				senders[s] = actor.NewPID(fmt.Sprintf("client-%d.invalid:4000", s), fmt.Sprintf("sender/%d", s-1))
 			}
 			wg.Add(1)
 			go func() {
@@ -222,15 +226,19 @@ func c17Run(c *caseCtx) (res caseResult) {
 		// one sender bursts: the stream writer then takes batches far beyond its nominal batch size
 		burstN := 4000 + r.Intn(8000)
 		burstSender := actor.NewPID(a1, "sender/burst")
+		burstSender2 := actor.NewPID("client-burst.invalid:4000", "sender/burst")
 		wg.Add(1)
 		go func() {
 			defer wg.Done()
 			for i := 0; i < burstN; i++ {
 				var sp *actor.PID
-				if i%2 == 0 {
+				switch i % 4 {
+				case 0:
 					sp = burstSender
+				case 2:
+					sp = burstSender2 // same id, other address
 				}
-				n1.eng.SendWithSender(target(i%nT), &remote.TestMessage{Data: []byte(fmt.Sprintf("g%d-b%d-%d", g, i%2, i))}, sp)
+				n1.eng.SendWithSender(target(i%nT), &remote.TestMessage{Data: []byte(fmt.Sprintf("g%d-b%d-%d", g, i%4, i))}, sp)
 			}
 		}()
 		// request/response across the engines
@@ -294,8 +302,8 @@ func c17Run(c *caseCtx) (res caseResult) {
 				}
 				var s, i int
 				if strings.HasPrefix(x.data()[len(prefix):], "b") {
-					var even int
-					fmt.Sscanf(x.data()[len(prefix):], "b%d-%d", &even, &i)
+					var kind int
+					fmt.Sscanf(x.data()[len(prefix):], "b%d-%d", &kind, &i)
 					seen[x.data()]++
 					burstGot++
 					if seen[x.data()] > 1 {
@@ -309,8 +317,10 @@ func c17Run(c *caseCtx) (res caseResult) {
 					}
 					lastBurst[t] = i
 					want := ""
-					if even == 0 {
+					if kind == 0 {
 						want = pidStr(burstSender)
+					} else if kind == 2 {
+						want = pidStr(burstSender2)
 					}
 					if x.sender != want {
 						res.violate("%s: burst message %s arrived with sender %q, sent with %q", phase, x.data(), x.sender, want)
